@@ -184,15 +184,18 @@ def hist_id(h):
 
 
 class Validator:
-    def __init__(self, ctx):
+    def __init__(self, ctx, module="Trace_Claims", cfg=None, devs=None):
         self.ctx = ctx
-        self.open_devs = sorted(d for d, f in DEVS.items() if ctx.is_known(f))
+        self.module = module
+        self.cfg = cfg or trace_cfg
+        self.devs = devs or DEVS
+        self.open_devs = sorted(d for d, f in self.devs.items() if ctx.is_known(f))
         self.n = 0
         self.stats = dict(histories=0, lines=0, strict_ok=0, explained_by_deviation=0, unexplained=0)
 
     def run_tlc(self, path, devs, label):
         self.n += 1
-        r = self.ctx.tlc("Trace_Claims", cfg_text=trace_cfg(devs), workers=1, timeout=3600, deadlock=False, dfs=True, heap="6g",
+        r = self.ctx.tlc(self.module, cfg_text=self.cfg(devs), workers=1, timeout=3600, deadlock=False, dfs=True, heap="6g",
                          env={"TRACE_FILE": path}, name="%s-%d%s" % (label, self.n, "-dev" if devs else ""), count_states=False)
         if r.error and not r.violated:
             raise vlib.Inconclusive("trace validation run failed (%s): %s" % (label, r.error[:1500]))
@@ -216,7 +219,7 @@ class Validator:
             except Exception:
                 continue
             if isinstance(d, dict) and "h" in d and "used" in d:
-                out.setdefault(d["h"], []).append((sorted(d["used"]), d.get("bad", [])))
+                out.setdefault(d["h"], []).append((sorted(d["used"]), d.get("bad", d.get("over", []))))
         return out
 
     def validate(self, path, label, kind):
@@ -270,7 +273,7 @@ class Validator:
                 for d in best[0]:
                     what = "%s history %d: the strict specification rejects the real execution, the as-built deviation %s explains it (broken: %s)" % (
                         kind, hist_id(h), d, json.dumps(best[1]))
-                    ctx.deviation(DEVS.get(d), what, dict(kind="history", source=kind, lines=[json.loads(x) for x in h]))
+                    ctx.deviation(self.devs.get(d), what, dict(kind="history", source=kind, lines=[json.loads(x) for x in h]))
             if culprit is None:
                 return
             self.stats["unexplained"] += 1
@@ -286,6 +289,40 @@ class Validator:
             if not rest:
                 return
         raise vlib.Inconclusive("too many unexplained histories in %s" % label)
+
+
+DEADLOCK = "D_C11_LockOrderDeadlock"
+
+
+def drive(ctx, binary, args, what, **kw):
+    """run the driver; its death (Go fatal error, crash) is an observation about the code under test"""
+    try:
+        ctx.run_driver(binary, args, **kw)
+        return True
+    except vlib.Inconclusive as ex:
+        if "timeout" in str(ex)[:40]:
+            ctx.deviation(None, "%s: the driver did not finish (calls hang): %s" % (what, str(ex)[:300]), dict(kind="driver", args=args))
+        else:
+            ctx.deviation(None, "%s: the driver process died while exercising the gateway: %s" % (what, str(ex)[-1500:]), dict(kind="driver", args=args))
+        return False
+
+
+def errors_in(ctx, path, what):
+    """handler errors / panics logged by the driver are behaviours the specification has no word for"""
+    n = 0
+    for h in split_histories(path):
+        bad = [ln for ln in h if '"ev":"error"' in ln]
+        if bad:
+            n += 1
+            if n <= 3:
+                ctx.deviation(None, "%s history %d: a call failed / panicked: %s" % (what, hist_id(h), bad[0][:400]),
+                              dict(kind="history", source=what, lines=[json.loads(x) for x in h]))
+    return n
+
+
+def drop_error_histories(path):
+    hs = [h for h in split_histories(path) if not any('"ev":"error"' in ln for ln in h)]
+    write_histories(path, hs)
 
 
 def nontrivial(h):
@@ -354,9 +391,10 @@ def run(ctx):
     nfiles, nh, nops = (4, 150, 10) if thorough else (1, 100, 8)
     for b in range(nfiles):
         tf = os.path.join(ctx.work, "seq-%d.ndjson" % b)
-        ctx.run_driver(binary, ["seq", tf, str(nh), str(nops)], timeout=1800, env={"VERIF_SEED": str(ctx.seed * 1009 + b)})
-        if '"ev":"error"' in open(tf).read():
-            raise vlib.Inconclusive("sequential driver: a handler returned a transport-level error (see %s)" % tf)
+        if not drive(ctx, binary, ["seq", tf, str(nh), str(nops)], "sequential", timeout=1800, env={"VERIF_SEED": str(ctx.seed * 1009 + b)}):
+            continue
+        if errors_in(ctx, tf, "sequential"):
+            drop_error_histories(tf)
         for h in split_histories(tf):
             ctx.count_case(h[1:], nontrivial=nontrivial(h))
         val.validate(tf, "seq-%d" % b, "sequential")
@@ -370,19 +408,24 @@ def run(ctx):
     json.dump(scheds, open(sf, "w"), indent=1)
     tf = os.path.join(ctx.work, "replay.ndjson")
     rf = os.path.join(ctx.work, "replay-results.json")
-    ctx.run_driver(binary, ["replay", sf, tf, rf], timeout=1800)
-    results = json.load(open(rf))
-    ctx.extra["witness_replays"] = [dict(name=x["name"], forced=x["ok"], observed=x["observed"], why=x.get("why", "")) for x in results]
-    for x in results:
-        if x.get("hung"):
-            raise vlib.Inconclusive("witness schedule %s: %s" % (x["name"], x.get("why")))
-        if not x["ok"]:
-            raise vlib.Inconclusive("witness schedule %s could not be forced on the real code: %s" % (x["name"], x.get("why")))
-    before = dict(ctx.known_seen)
-    val.validate(tf, "witness", "witness-replay")
-    ctx.sample(dict(kind="witness schedule", name=scheds[2]["name"], steps=[(s["p"], s["act"], s["want"]) for s in scheds[2]["steps"]]))
-    for h in split_histories(tf):
-        ctx.count_case(h[1:], nontrivial=True)
+    if drive(ctx, binary, ["replay", sf, tf, rf], "witness replay", timeout=1800):
+        results = json.load(open(rf))
+        ctx.extra["witness_replays"] = [dict(name=x["name"], forced=x["ok"], observed=x["observed"], why=x.get("why", "")) for x in results]
+        for x in results:
+            if x.get("hung"):
+                # the model's witness schedules terminate: a call that never returns under one of them is not a behaviour of the spec
+                ctx.deviation(None, "witness schedule %s: %s (observed %s)" % (x["name"], x.get("why"), x["observed"]),
+                              dict(kind="schedule", schedule=[s for s in scheds if s["name"] == x["name"]]))
+            elif not x["ok"]:
+                # the real code did not stop where the model says it stops: not a model behaviour either
+                ctx.deviation(None, "witness schedule %s could not be forced on the real code: %s (observed %s)" % (x["name"], x.get("why"), x["observed"]),
+                              dict(kind="schedule", schedule=[s for s in scheds if s["name"] == x["name"]]))
+        errors_in(ctx, tf, "witness-replay")
+        drop_error_histories(tf)
+        val.validate(tf, "witness", "witness-replay")
+        ctx.sample(dict(kind="witness schedule", name=scheds[2]["name"], steps=[(s["p"], s["act"], s["want"]) for s in scheds[2]["steps"]]))
+        for h in split_histories(tf):
+            ctx.count_case(h[1:], nontrivial=True)
 
     # 5. binding A: concurrent stress histories
     batches, per = (5, 200) if thorough else (1, 120)
@@ -390,20 +433,29 @@ def run(ctx):
     for b in range(batches):
         tf = os.path.join(ctx.work, "stress-%d.ndjson" % b)
         inf = os.path.join(ctx.work, "stress-%d.json" % b)
-        ctx.run_driver(binary, ["stress", tf, str(per), inf], timeout=3600, env={"VERIF_SEED": str(ctx.seed * 7919 + b)})
+        if not drive(ctx, binary, ["stress", tf, str(per), inf], "stress", timeout=3600, env={"VERIF_SEED": str(ctx.seed * 7919 + b)}):
+            continue
         info = json.load(open(inf))
         for k in tot:
             tot[k] += info.get(k, 0)
-        if '"ev":"error"' in open(tf).read():
-            raise vlib.Inconclusive("stress driver: a handler returned a transport-level error (see %s)" % tf)
+        # a history whose calls never return: explained only by the known lock-order cycle (somebody waits for a record
+        # guard in Cond.Wait while somebody waits for a beacon lock), and only in a concurrent history
+        for sig, cnt in sorted(info.get("hung_states", {}).items()):
+            cyc = "sync.Cond.Wait" in sig and ("Mutex.Lock" in sig or "RWMutex" in sig)
+            ctx.deviation(DEADLOCK if cyc else None,
+                          "stress: %d histories never returned; unfinished calls parked in [%s]%s" % (
+                              cnt, sig, " (lock-order cycle beacon lock <-> record guard)" if cyc else ""),
+                          dict(kind="hang", signature=sig, seed=ctx.seed * 7919 + b))
+        if errors_in(ctx, tf, "stress"):
+            drop_error_histories(tf)
         for h in split_histories(tf):
             ctx.count_case(h[1:], nontrivial=nontrivial(h))
         val.validate(tf, "stress-%d" % b, "stress")
         if b == 0:
             keep_for_selftest = tf
     ctx.extra["stress"] = tot
-    if tot["completed"] < tot["histories"] // 2:
-        raise vlib.Inconclusive("more than half of the stress histories deadlocked (%s)" % tot)
+    if tot["histories"] and tot["completed"] < tot["histories"] // 2:
+        ctx.deviation(None, "more than half of the stress histories never returned (%s): not the rare known lock-order cycle" % tot, dict(kind="hang", totals=tot))
 
     # 6. binding self-test (thorough): a corrupted trace must be rejected even by the as-built specification
     if thorough:
